@@ -40,8 +40,12 @@ def relayout(rng, rows):
         extra = ["notes", "Broker Ref", ""][: rng.randint(1, 3)]
         desc.append("unknown columns")
     # file partition
-    nfiles = rng.choice([1, 1, 2, 3])
-    cuts = sorted(rng.sample(range(1, max(2, len(new))), min(nfiles - 1, max(0, len(new) - 1)))) if len(new) > 1 else []
+    nfiles = rng.choice([1, 1, 2, 3, 3, 4])
+    if rng.random() < 0.25:
+        # cuts may coincide or sit at the ends: files holding a header and no rows
+        cuts = sorted(rng.randint(0, len(new)) for _ in range(nfiles - 1))
+    else:
+        cuts = sorted(rng.sample(range(1, max(2, len(new))), min(nfiles - 1, max(0, len(new) - 1)))) if len(new) > 1 else []
     parts = []
     prev = 0
     for c in cuts + [len(new)]:
@@ -62,7 +66,7 @@ def relayout(rng, rows):
             c = core.row_csv(r)
             cells = [c[k] for k in allc]
             for e, p in zip(extra, pos):
-                cells.insert(p, rng.choice(["", "x", "12.5", "junk, with comma"]))
+                cells.insert(p, rng.choice(["", "x", "12.5", "junk, with comma", "#17", "# a note", "//x", ";"]))
             lines.append(",".join(core.csv_quote(x) for x in cells))
         files.append("\n".join(lines) + "\n")
     return files, new, ", ".join(desc) or "identity"
@@ -98,6 +102,11 @@ def run(res, ctx):
     orig, relaid, descs = [], [], []
     for _ in range(n):
         c = gen.gen_case(rng, p_invalid=0.05, window_focus=(rng.random() < 0.4))
+        if rng.random() < 0.3:
+            # memo cells that a lenient reader could take for something else (comment markers, quotes)
+            for r in c["rows"]:
+                if rng.random() < 0.5:
+                    r["memo"] = rng.choice(["#4711 second lot", "# note", "lot 7", "//", "; x", "'q'", "a, b"])
         files, new_rows, desc = relayout(rng, c["rows"])
         orig.append(c)
         relaid.append({"rows": new_rows, "inits": c["inits"], "files": files})
